@@ -470,14 +470,14 @@ pub fn cases(tier: &str) -> Vec<Case> {
 pub fn meta(tier: &str) -> Meta {
     Meta {
         level: "model_checking",
-        rule: "every set of <= 3 (thorough: <= 4) of 18 by-reference proposal atoms (valid and invalid: add new / existing identity / expired key package, update by two members, the same member twice, the committer; remove by one or two proposers, of a proposer, of the committer; PSK once and twice; one or two GCEs; custom; re-init) x 8 by-value atoms (3 invalid) x committer x 2 seed trees (dense 5, interior blank 4), proposals sent by real members and delivered to everybody (one receiver in reverse order, one fork missing the first); a case is judged by receiver acceptance, equality of applied / unused sets and epoch state between committer and receivers, refusal + unchanged state of the member that misses a referenced proposal, and a coarse RFC 9420 12.2 rule table; plus (checks/c10x.rs) every proposal kind re-issued as a correctly signed proposal of the group's external sender, of an external sender that is not in the list, and as a new-member proposal, alone, together with each genuine member proposal (both orders) and in pairs, committed by reference: nothing panics, members with the same cache accept the commit and agree on applied / unused sets and the epoch, a proposal whose sender RFC 9420 12.1 does not allow for its type is never applied, a proposal of an unknown external sender is never cached; plus (checks/c10y.rs) an adversarial committer (hook H8: its proposal filter keeps what it finds invalid, everything downstream is computed consistently by the library) over 22 invalid proposal sets, hand-encoded through CommitBuilder::raw_proposal where the public builders refuse (removal / update of the committer, update by value, two changes to one leaf, duplicate PSK, bad PSK nonce length or usage, two GCEs, GCE requiring an unsupported extension, re-init with other proposals or another version, Add of a member / expired / duplicate / other-suite key package, Remove of a blank leaf or beyond the tree, unsupported custom type, Update from an external sender) and 3 valid control sets: every receiver must refuse each invalid commit that really carries the set and stay unchanged, and accept the controls; states = cases".into(),
+        rule: "every set of <= 3 (thorough: <= 4) of 18 by-reference proposal atoms (valid and invalid: add new / existing identity / expired key package, update by two members, the same member twice, the committer; remove by one or two proposers, of a proposer, of the committer; PSK once and twice; one or two GCEs; custom; re-init) x 8 by-value atoms (3 invalid) x committer x 2 seed trees (dense 5, interior blank 4), proposals sent by real members and delivered to everybody (one receiver in reverse order, one fork missing the first); a case is judged by receiver acceptance, equality of applied / unused sets and epoch state between committer and receivers, refusal + unchanged state of the member that misses a referenced proposal, and a coarse RFC 9420 12.2 rule table; plus (checks/c10x.rs) every proposal kind re-issued as a correctly signed proposal of the group's external sender, of an external sender that is not in the list, and as a new-member proposal, alone, together with each genuine member proposal (both orders) and in pairs, committed by reference: nothing panics, members with the same cache accept the commit and agree on applied / unused sets and the epoch, a proposal whose sender RFC 9420 12.1 does not allow for its type is never applied, a proposal of an unknown external sender is never cached; plus (checks/c10y.rs) an adversarial committer (hook H8: its proposal filter keeps what it finds invalid, everything downstream is computed consistently by the library) over 22 invalid proposal sets, hand-encoded through CommitBuilder::raw_proposal where the public builders refuse (removal / update of the committer, update by value, two changes to one leaf, duplicate PSK, bad PSK nonce length or usage, two GCEs, GCE requiring an unsupported extension, re-init with other proposals or another version, Add of a member / expired / duplicate / other-suite key package, Remove of a blank leaf or beyond the tree, unsupported custom type, Update from an external sender) and 3 valid control sets: every receiver must refuse each invalid commit that really carries the set and stay unchanged, and accept the controls; plus (checks/c10z.rs) 4-member groups under 5 patterns of which members support a second credential type, every subset (and both orders) of by-reference Adds of three outsiders (credential of the second type / basic supporting both / basic only) x committer x by-value part (nothing, PSK, Add of a basic-only party) followed by a second commit of the same or another member (empty or adding a basic-only party): the commit must be buildable whenever its by-value part is valid, accepted by all with equal applied / unused sets and epoch state, an Add whose credential type some member lacks is never applied and is reported unused, valid Adds are applied, added parties join, and the follow-up commit is built and accepted (the committer's validation state keeps nothing of a dropped leaf); states = cases".into(),
         assumptions: {
             let mut a = default_assumptions();
             a.push("where RFC 9420 leaves the choice among conflicting proposals to the committer only agreement between committer and receivers is demanded".into());
             a
         },
         bounds: bounds_json(&[("cases", json!(cases(tier).len()))]),
-        required_goals: vec!["member-missing-a-referenced-proposal", "commit-over-non-member-proposals", "non-member-proposal-applied", "adversarial-procedure-validated", "invalid-commit-built"],
+        required_goals: vec!["member-missing-a-referenced-proposal", "commit-over-non-member-proposals", "non-member-proposal-applied", "adversarial-procedure-validated", "invalid-commit-built", "unsupported-credential-add-dropped", "second-credential-type-added", "follow-up-commit-after-dropped-add"],
         min_outcomes: 5,
         workers: 16,
     }
@@ -504,6 +504,8 @@ pub fn run(ctx: &mut Ctx) {
     super::c10x::run(ctx);
     // invalid proposal sets received from an adversarial committer (checks/c10y.rs)
     super::c10y::run(ctx);
+    // members that differ in the credential types they support (checks/c10z.rs)
+    super::c10z::run(ctx);
 }
 
 pub fn replay(ctx: &mut Ctx, path: &[usize]) {
